@@ -181,7 +181,7 @@ def verify_update(world, units, spec: M.Spec, concrete_cls=None, engine_kw=None,
 
 def _cover(eng, qual):
     from ..engine import Obligation
-    return Obligation(f"{qual}/cover", list(eng.run.pc), z3.BoolVal(False), "cover", eng.fn, tuple(eng.run.taken))
+    return Obligation(f"{qual}/cover", list(eng.run.defs) + list(eng.run.pc), z3.BoolVal(False), "cover", eng.fn, tuple(eng.run.taken))
 
 
 def verify_avg(world, units, engine_kw=None):
